@@ -44,6 +44,7 @@ func runC19(c *Ctx) {
 	checkNoValidationBetweenPreRunAndRun(c)
 	checkOpenEventsRelayed(c)
 	checkSignalsCaught(c, "R19.12")
+	checkCleanerAfterOpen(c, "R19.14")
 	checkServerStoppedBeforeLockReleased(c, "R19.13")
 	isLoad := func(n string) bool {
 		return n == "commands/execenv.LoadBackend" || n == "commands/execenv.LoadBackendEnsureUser"
@@ -201,32 +202,7 @@ func runC19(c *Ctx) {
 	} else {
 		c.Undecided("R19.2", "anchor:execenv.LoadBackendEnsureUser", "commands/execenv", "not found")
 	}
-	// R19.5: a cache whose opening failed (it may be locked by a live process) is never closed: Close removes the lock file
-	c.Doc("R19.5", "after the cache-open event stream reported an error, RepoCache.Close is not called on that cache (Close removes the lock file, which may belong to a live holder)")
-	nOpen := 0
-	for _, fn := range w.ModFns {
-		if isInstance(fn) || w.isTestHelper(fn) {
-			continue
-		}
-		for _, cl := range Calls(fn) {
-			if cl.Name != "commands/execenv.CacheBuildProgressBar" || cl.Value() == nil {
-				continue
-			}
-			nOpen++
-			c.Sites++
-			bad := false
-			var path []*ssa.BasicBlock
-			for _, fb := range failureBlocks(cl.Value()) {
-				if b, p, _ := pathSearch(fn, nil, fb, isBackendClose, isAnyReturn, false); b {
-					bad, path = true, p
-				}
-			}
-			c.Check(!bad, "R19.5", funcName(fn)+":no-close-after-failed-open", w.InstrPos(cl.Instr), "a failed open is not followed by Close", "after the cache could not be opened (for instance because a live process holds the lock) the cache is closed, which removes that process' lock file: "+blocksString(w, path))
-		}
-	}
-	if nOpen < 2 {
-		c.Violate("R19.5", "expected:cache-open-sites", "commands", fmt.Sprintf("%d cache-open sites (reference 3)", nOpen))
-	}
+	checkNoCloseAfterFailedOpen(c, isBackendClose)
 	if cb := w.Func("commands/execenv", "CloseBackend"); cb != nil {
 		for _, body := range cb.AnonFuncs {
 			// every return after the wrapped function ran passes Close, unless Backend == nil
@@ -1070,4 +1046,35 @@ func checkOpenEventsRelayed(c *Ctx) {
 		}
 	}
 	c.Check(found && okRelay, "R19.11", "MultiRepoCache.RegisterRepository:every-event-relayed", w.FnPos(fn), "each received event is sent on unconditionally", why)
+}
+
+// R19.5 (extracted so that C05 can share it: two writers side by side hand out the same clock values)
+func checkNoCloseAfterFailedOpen(c *Ctx, isBackendClose func(ssa.Instruction) bool) {
+	w := c.W
+	// R19.5: a cache whose opening failed (it may be locked by a live process) is never closed: Close removes the lock file
+	c.Doc("R19.5", "after the cache-open event stream reported an error, RepoCache.Close is not called on that cache (Close removes the lock file, which may belong to a live holder)")
+	nOpen := 0
+	for _, fn := range w.ModFns {
+		if isInstance(fn) || w.isTestHelper(fn) {
+			continue
+		}
+		for _, cl := range Calls(fn) {
+			if cl.Name != "commands/execenv.CacheBuildProgressBar" || cl.Value() == nil {
+				continue
+			}
+			nOpen++
+			c.Sites++
+			bad := false
+			var path []*ssa.BasicBlock
+			for _, fb := range failureBlocks(cl.Value()) {
+				if b, p, _ := pathSearch(fn, nil, fb, isBackendClose, isAnyReturn, false); b {
+					bad, path = true, p
+				}
+			}
+			c.Check(!bad, "R19.5", funcName(fn)+":no-close-after-failed-open", w.InstrPos(cl.Instr), "a failed open is not followed by Close", "after the cache could not be opened (for instance because a live process holds the lock) the cache is closed, which removes that process' lock file: "+blocksString(w, path))
+		}
+	}
+	if nOpen < 2 {
+		c.Violate("R19.5", "expected:cache-open-sites", "commands", fmt.Sprintf("%d cache-open sites (reference 3)", nOpen))
+	}
 }
